@@ -579,13 +579,27 @@ def main(argv):
                       "#line 7 \"a.f90\"", "#error stop here", "#warning careful", "#", "# 12 \"x.f90\" 2", "#define LONG a + \\\n   b"]
         from fparser.two import C99Preprocessor as C99
         from fparser.two.utils import walk
-        payload = lambda s: "".join(s.replace("\\\n", "").split()).lower()     # noqa: E731
+        import re as _re14
+
+        def payload(text):
+            """a directive as (keyword, words of the rest, blank after the keyword?): backslash-newlines joined, runs of
+            blanks collapsed - a blank between two tokens of the rest is significant ('#define G (x)' is not 'G(x)')"""
+            t = text.replace("\\\n", " ").strip()
+            m = _re14.match(r"#\s*([A-Za-z]*)(\s*)(.*)$", t, _re14.S)
+            return (m.group(1).lower(), m.group(3).split(), bool(m.group(2)) or not m.group(3))
+
+        def same_payload(printed, source):
+            a, b = payload(printed), payload(source)
+            # the printed form may add the blank after the keyword, it may not drop one that the source has
+            return a[0] == b[0] and a[1] == b[1] and (a[2] or not b[2])
         for name in ("plain", "module", "select_where", "labelled_do_action_term", "labelled_do_continue", "named_constructs"):
             lines = CATALOGUE[name].splitlines()
             base_tree = parse(CATALOGUE[name], "f2003")
             for pos in range(0, len(lines) + 1):
                 # text after the keyword of #else / #endif (the usual '#endif /* MACRO */') belongs to the directive
                 trailing = ["#else /* !HAVE_MPI */", "#endif /* HAVE_MPI */", "#endif // X", "#else  ! not X",
+                            # a payload that starts with a bracket or a star; a blank that separates a macro name from '('
+                            "#if (defined(A) && defined(B)) || C > 1", "#elif (LIMIT > 5)", "#error (n) must not be used here", "#warning *** check the scaling ***", "#define G (x)", "#define H(x) (x)",
                             # no blank between the keyword and what follows it
                             "#if(defined(X))", "#if!defined(X)", "#elif(A)", "#include\"f.h\"", "#ifdef X", "#  if defined(Y)", "#define F(a,b) a+b",
                             # followed by a blank line; the last line of the macro ending in a backslash (which joins only that blank line)
@@ -602,7 +616,7 @@ def main(argv):
                     if len(cpp_nodes) != 1:
                         fail("cpp#one_node_per_directive", dict(program=name, position=pos, directive=d, source=src), dict(nodes=[type(n).__name__ for n in cpp_nodes]))
                         continue
-                    if payload(str(cpp_nodes[0])) != payload(d):
+                    if not same_payload(str(cpp_nodes[0]), d):
                         fail("cpp#payload_intact", dict(program=name, position=pos, directive=d, source=src), dict(printed=str(cpp_nodes[0]), directive=d))
                     rest = [l.strip() for l in str(t).splitlines() if l.strip() != str(cpp_nodes[0]).strip()]
                     if rest != [l.strip() for l in str(base_tree).splitlines()]:
